@@ -208,6 +208,40 @@ theorem close_reopen_invisible (cfg : Cfg) (s : St) (ops : List Op) (ht : Track 
     (run cfg s ops).files = (run cfg s (ops.filter Op.isWrite)).files :=
   run_files_filter cfg s s ops ht ht rfl
 
+/-! ## concurrent writers — method-level serialisation only -/
+
+/-- an order-preserving merge of two writers' own sequences of calls -/
+inductive Merge : List Op → List Op → List Op → Prop where
+  | nil : Merge [] [] []
+  | left {o a b c} : Merge a b c → Merge (o :: a) b (o :: c)
+  | right {o a b c} : Merge a b c → Merge a (o :: b) (o :: c)
+
+/-- clause "concurrent writers never interleave bytes within one write", **only under the assumption that the mutex
+    makes every call atomic** (not proved: the model has no finer steps than whole calls; see the assumptions of the
+    check and its `stress` oracle).  Under that assumption a run of two writers is some order-preserving merge `ops` of
+    their calls, and for every such merge the retained files are a suffix of the records in merge order — each
+    retained record contiguous, each writer's records in its own order. -/
+theorem serialised_writers (cfg : Cfg) (s : St) (w₁ w₂ ops : List Op) (h : Merge w₁ w₂ ops) :
+    (∃ pre, retained cfg s.files ++ (writesOf ops).flatten = pre ++ retained cfg (run cfg s ops).files) ∧
+    ∃ m : List Op, Merge (w₁.filter Op.isWrite) (w₂.filter Op.isWrite) m ∧ writesOf m = writesOf ops := by
+  refine ⟨run_suffix cfg s ops, ?_⟩
+  induction h with
+  | nil => exact ⟨[], Merge.nil, rfl⟩
+  | @left o a b c _ ih =>
+    obtain ⟨m, hm, he⟩ := ih
+    cases o with
+    | write x => exact ⟨.write x :: m, by simpa [List.filter, Op.isWrite] using Merge.left hm, by simp [writesOf, he]⟩
+    | close => exact ⟨m, by simpa [List.filter, Op.isWrite] using hm, by simp [writesOf, he]⟩
+    | reopen => exact ⟨m, by simpa [List.filter, Op.isWrite] using hm, by simp [writesOf, he]⟩
+    | sync => exact ⟨m, by simpa [List.filter, Op.isWrite] using hm, by simp [writesOf, he]⟩
+  | @right o a b c _ ih =>
+    obtain ⟨m, hm, he⟩ := ih
+    cases o with
+    | write x => exact ⟨.write x :: m, by simpa [List.filter, Op.isWrite] using Merge.right hm, by simp [writesOf, he]⟩
+    | close => exact ⟨m, by simpa [List.filter, Op.isWrite] using hm, by simp [writesOf, he]⟩
+    | reopen => exact ⟨m, by simpa [List.filter, Op.isWrite] using hm, by simp [writesOf, he]⟩
+    | sync => exact ⟨m, by simpa [List.filter, Op.isWrite] using hm, by simp [writesOf, he]⟩
+
 /-! ## New and its options -/
 
 /-- without options the rotator has the default limits read from options.go (`Facts.rotation_*`) and the default path -/
